@@ -10,7 +10,7 @@
    detector (both tiers are built with -race).  Data-race freedom itself is observed, not
    proved.  The *_refuted / *_necessary theorems show that the hypothesis cannot be dropped:
    the system in which a run writes one shared cell is exactly defect F-C09. *)
-From Eino Require Import Base.Util Model.Isolation Model.IsolationEngine Proofs.Isolation Proofs.IsolationDriver Proofs.IsolationEngine Proofs.IsolationEngineRec Proofs.IsolationSlice.
+From Eino Require Import Base.Util Model.Isolation Model.IsolationEngine Proofs.Isolation Proofs.IsolationDriver Proofs.IsolationEngine Proofs.IsolationEngineRec Proofs.IsolationSlice Proofs.IsolationCtx.
 
 (* ---- core: runs_non_interfering (system of the property: the record is immutable) ---- *)
 
@@ -226,6 +226,33 @@ Proof.
           (conj shared_write_preserves_view_tt shared_write_breaks_projection)).
 Qed.
 Print Assumptions no_write_hypothesis_necessary.
+
+(* defect F-C09b (flow/agent/react/react.go:224 before 69dbab3): the tool-call checker of every
+   run was handed the context of the CONSTRUCTOR.  A run whose own context is live gets the
+   verdict "live" alone, and "cancelled" when the owner of the constructor's context — who is
+   entitled to cancel it once NewAgent has returned — does so first (schedule 1,0) *)
+Theorem constructor_context_refuted :
+  exists sched g g',
+    grun cstep_ctor sched g = Some g' /\ all_final cstep_ctor g' = true /\
+    exists r r' s rs,
+      nth_error (snd g) 0 = Some r /\ nth_error (snd g') 0 = Some r' /\
+      c_owner r = false /\ c_own_cancelled r = false /\
+      solo_run cstep_ctor 1 (fst g) r = Some (s, rs) /\
+      c_verdict rs = Some true /\ c_verdict r' = Some false.
+Proof. exact ctor_context_foreign_cancel. Qed.
+Print Assumptions constructor_context_refuted.
+
+(* the repaired condition passes on the context it is called with: the verdict of a run is a
+   function of ITS context in every interleaving with any number of runs and with the owner of
+   the constructor's context (who does write the store: only H2 is needed here) *)
+Theorem run_context_verdict_is_own :
+  forall sched g g',
+    grun cstep_own sched g = Some g' ->
+    forall i r, nth_error (snd g) i = Some r -> c_pc r = 0%N -> c_owner r = false ->
+    forall r', nth_error (snd g') i = Some r' -> final cstep_own (fst g') r' = true ->
+    c_verdict r' = Some (negb (c_own_cancelled r)).
+Proof. exact cstep_own_verdict. Qed.
+Print Assumptions run_context_verdict_is_own.
 
 (* two more shapes of shared mutable state that a refactoring can introduce into a compiled
    object (self mutation tests, notes/C09.md §5), each refuted by a witness: *)
